@@ -86,9 +86,14 @@ func (h *Engine) Configure(serverConfig core.ServerConfig) error {
 		}
 	}
 
-	h.applyRateLimiterMiddleware(h.server, serverConfig)
 	h.applyLoggerMiddleware(h.server, []string{"/metrics", "/status", "/health"}, h.config.Log)
-	return h.applyAuthMiddleware(h.server, "/internal", h.config.Internal.Auth)
+	if err := h.applyAuthMiddleware(h.server, "/internal", h.config.Internal.Auth); err != nil {
+		return err
+	}
+	// The rate limiter must come after (inside) the auth middleware: its token bucket is shared by all callers,
+	// so requests that fail authentication must not consume from it (and must be answered 401, not 429).
+	h.applyRateLimiterMiddleware(h.server, serverConfig)
+	return nil
 }
 
 func (h *Engine) configureClient(serverConfig core.ServerConfig) {
